@@ -53,6 +53,11 @@ def run(ctx):
     prog = ctx.prog()
     from . import c01
     c01.check_inorder(ctx)
+    # a FIN (one sequence number, no text) must stay on the retransmission queue until it is acknowledged
+    rp_ = prog.method("Tcb", "remove_acked_from_retransmission")
+    pr_ = c01.removal_rule(prog, rp_)
+    (ctx.bad if pr_ else ctx.ok)("T-ACK-PRUNE", "T-ACK-PRUNE:remove_acked", rp_.span, "; ".join(pr_) if pr_ else
+        "a queue entry (data or FIN) is removed exactly when SND.UNA >= SEQ + LEN (circular)")
     ps = prog.method("Tcb", "process_segment")
     cl = prog.method("Tcb", "close")
     new = prog.method("Tcb", "new")
